@@ -5,6 +5,7 @@
 -/
 import Proofs.C15_Lemmas
 import Proofs.C15_Source
+import Mathlib.Algebra.Order.Ring.Cast
 
 namespace Atomman.C15
 set_option linter.unusedSimpArgs false
@@ -1096,6 +1097,753 @@ example : resolveSite exSys (some ⟨-3, 0, 0⟩) none false (1/100) = .ok 0 :=
 example : resolveSite (exSys.scaled (1/1024)) (some (V3.smul (1/1024) ⟨1 + 1/128, 0, 0⟩)) none false ((1/1024) * (1/128)) = .ok 0 := by
   decide +kernel
 example : resolveSite (exSys.scaled (1/1024)) (some (V3.smul (1/1024) ⟨1 + 1/128, 0, 0⟩)) none false ((1/1024) * (1/256)) = .error .value := by
+  decide +kernel
+
+
+/-! ## round 6: completeness (iff) of every refusal, end-to-end statements about the functions AS WRITTEN in
+    point.py (`Generated/PointSource.lean`), keywords, histories -/
+
+open Atomman.Generated
+
+
+
+section any
+variable {K : Type} [Add K] [Sub K] [Mul K] [Zero K] [IntCast K] [LT K] [DecidableLT K] [DecidableEq K]
+
+/-- **selection by index, completely** (also negative indices): `ptd_id = k` names atom `i` exactly when
+    `k = i` with `0 ≤ k < natoms`, or `k = i - natoms` with `-natoms ≤ k < 0`. -/
+theorem resolve_index_iff (s : Sys K) (k : Int) (scale : Bool) (atol : K) (i : Nat) :
+    resolveSite s none (some k) scale atol = .ok i ↔
+      ((0 ≤ k ∧ k < (s.atoms.length : Int) ∧ (i : Int) = k) ∨
+       (k < 0 ∧ 0 ≤ k + (s.atoms.length : Int) ∧ (i : Int) = k + (s.atoms.length : Int))) := by
+  have key : normIdx s.atoms.length k = some i ↔
+      ((0 ≤ k ∧ k < (s.atoms.length : Int) ∧ (i : Int) = k) ∨
+       (k < 0 ∧ 0 ≤ k + (s.atoms.length : Int) ∧ (i : Int) = k + (s.atoms.length : Int))) := by
+    unfold normIdx
+    simp only []
+    split <;> split <;> simp <;> omega
+  simp only [resolveSite]
+  cases hn : normIdx s.atoms.length k with
+  | none =>
+    rw [hn] at key
+    constructor
+    · intro h; cases h
+    · intro h; exact absurd (key.mpr h) (by simp)
+  | some j =>
+    rw [hn] at key
+    constructor
+    · intro h; injection h with h; subst h; exact key.mp rfl
+    · intro h; have := key.mpr h; injection this with this; subst this; rfl
+
+/-- **an index is refused exactly when it is out of range** (`k ≥ natoms` or `k < -natoms`). -/
+theorem refuse_index_iff (s : Sys K) (k : Int) (scale : Bool) (atol : K) :
+    resolveSite s none (some k) scale atol = .error .value ↔
+      (k ≥ (s.atoms.length : Int) ∨ k < -(s.atoms.length : Int)) := by
+  constructor
+  · intro h
+    by_contra hc
+    have hc' : ¬ (k ≥ (s.atoms.length : Int)) ∧ ¬ (k < -(s.atoms.length : Int)) := by
+      constructor <;> (intro h'; exact hc (by first | exact Or.inl h' | exact Or.inr h'))
+    by_cases hk : k < 0
+    · have := (resolve_index_iff s k scale atol (k + (s.atoms.length : Int)).toNat).mpr
+        (Or.inr ⟨hk, by omega, by omega⟩)
+      rw [h] at this; cases this
+    · have := (resolve_index_iff s k scale atol k.toNat).mpr (Or.inl ⟨by omega, by omega, by omega⟩)
+      rw [h] at this; cases this
+  · intro h
+    simp [resolveSite, normIdx_out _ _ h]
+
+/-- selection by index does not look at `scale` or at the tolerance. -/
+theorem resolve_index_indep (s : Sys K) (k : Int) (sc sc' : Bool) (a a' : K) :
+    resolveSite s none (some k) sc a = resolveSite s none (some k) sc' a' := rfl
+
+/-- **`vacancy` refuses exactly when** the site is refused or the atom is the only one. -/
+theorem vacancy_ok_iff (s : Sys K) (pos : Option (V3 K)) (ptd : Option Int) (scale : Bool) (atol : K) :
+    (∃ s', vacancy s pos ptd scale atol = .ok s') ↔
+      (∃ i, resolveSite s pos ptd scale atol = .ok i) ∧ 2 ≤ s.atoms.length := by
+  unfold vacancy
+  cases hr : resolveSite s pos ptd scale atol with
+  | error e => simp
+  | ok i =>
+    have hi := resolveSite_lt s pos ptd scale atol i hr
+    simp only [vacancyAt]
+    have hl : ((List.range s.atoms.length).eraseIdx i).length = s.atoms.length - 1 := by
+      simp [List.length_eraseIdx, hi]
+    by_cases h2 : 2 ≤ s.atoms.length
+    · have : ((List.range s.atoms.length).eraseIdx i).isEmpty = false := by
+        cases hl' : (List.range s.atoms.length).eraseIdx i with
+        | nil => rw [hl'] at hl; simp at hl; omega
+        | cons a t => rfl
+      simp [this, h2]
+    · have : ((List.range s.atoms.length).eraseIdx i).isEmpty = true := by
+        cases hl' : (List.range s.atoms.length).eraseIdx i with
+        | nil => rfl
+        | cons a t => rw [hl'] at hl; simp at hl; omega
+      simp [this, h2]
+
+/-- **`substitutional` refuses exactly when** the site is refused or the atom already has the requested type. -/
+theorem substitutional_ok_iff (s : Sys K) (pos : Option (V3 K)) (ptd : Option Int) (scale : Bool) (atol : K)
+    (kw : Kw K) :
+    (∃ s', substitutional s pos ptd scale atol kw = .ok s') ↔
+      ∃ i a, resolveSite s pos ptd scale atol = .ok i ∧ s.atoms[i]? = some a ∧ a.atype ≠ kw.atype.getD 1 := by
+  unfold substitutional
+  cases hr : resolveSite s pos ptd scale atol with
+  | error e => simp
+  | ok i =>
+    have hi := resolveSite_lt s pos ptd scale atol i hr
+    have ha : s.atoms[i]? = some s.atoms[i] := List.getElem?_eq_getElem hi
+    simp only [substitutionalAt, ha]
+    by_cases ht : s.atoms[i].atype = kw.atype.getD 1
+    · simp [ht]
+      intro x hx; rw [ha] at hx; injection hx with hx; subst hx; exact ht
+    · simp [ht]
+      exact ⟨_, ha, ht⟩
+
+/-- **`dumbbell` refuses exactly when** the site is refused. -/
+theorem dumbbell_ok_iff (s : Sys K) (pos : Option (V3 K)) (ptd : Option Int) (db : V3 K) (scale : Bool) (atol : K)
+    (kw : Kw K) :
+    (∃ s', dumbbell s pos ptd db scale atol kw = .ok s') ↔ ∃ i, resolveSite s pos ptd scale atol = .ok i := by
+  unfold dumbbell
+  cases hr : resolveSite s pos ptd scale atol with
+  | error e => simp
+  | ok i =>
+    have hi := resolveSite_lt s pos ptd scale atol i hr
+    have ha : s.atoms[i]? = some s.atoms[i] := List.getElem?_eq_getElem hi
+    simp [dumbbellAt, ha]
+
+/-- the closing guard lets a result through exactly when the requested type is admissible. -/
+theorem guardAtype_ok_iff (kw : Kw K) (r : Except Err (Sys K)) (s' : Sys K) :
+    guardAtype kw r = .ok s' ↔ r = .ok s' ∧ kw.atypeOk = true := by
+  cases r with
+  | error e => simp [guardAtype]
+  | ok x =>
+    cases hk : kw.atypeOk <;> simp [guardAtype, hk]
+
+/-- the dispatcher at the level of the API (`atol` optional): routing and assertions. -/
+theorem pointC_dispatch (d : K) (s : Sys K) (pos : Option (V3 K)) (ptd : Option Int) (p v : V3 K) (scale : Bool)
+    (atol : Option K) (kw : Kw K) :
+    pointC d s "v" pos ptd none scale atol {} = vacancyC d s pos ptd scale atol ∧
+    pointC d s "i" (some p) none none scale atol kw = interstitialC d s p scale atol kw ∧
+    pointC d s "s" pos ptd none scale atol kw = substitutionalC d s pos ptd scale atol kw ∧
+    pointC d s "db" pos ptd (some v) scale atol kw = dumbbellC d s pos ptd v scale atol kw ∧
+    pointC d s "v" pos ptd (some v) scale atol kw = .error .assert ∧
+    (kw.isEmpty = false → pointC d s "v" pos ptd none scale atol kw = .error .assert) ∧
+    pointC d s "i" pos (some 0) none scale atol kw = .error .assert ∧
+    pointC d s "i" pos none (some v) scale atol kw = .error .assert ∧
+    pointC d s "s" pos ptd (some v) scale atol kw = .error .assert ∧
+    (∀ t, t ≠ "v" → t ≠ "i" → t ≠ "s" → t ≠ "db" → pointC d s t pos ptd none scale atol kw = .error .value) := by
+  refine ⟨?_, ?_, ?_, ?_, ?_, ?_, ?_, ?_, ?_, ?_⟩
+  · simp [pointC, Kw.isEmpty]
+  · simp [pointC]
+  · simp [pointC]
+  · simp [pointC]
+  · simp [pointC]
+  · intro hk; simp [pointC, hk]
+  · simp [pointC]
+  · simp [pointC]
+  · simp [pointC]
+  · intro t h1 h2 h3 h4; simp [pointC, h1, h2, h3, h4]
+
+end any
+
+section field
+variable {K : Type} [Field K] [LinearOrder K] [IsStrictOrderedRing K]
+
+/-- **the tolerance test on squares is numpy's `isclose(dist, 0.0, atol=atol)`**: for the exact distance `r`
+    (`r ≥ 0`, `r² = dist2`) and ANY `rtol`, `within` holds iff `r == 0` or `|r - 0| ≤ atol + rtol·|0|`. -/
+theorem within_iff_isclose (s : Sys K) (p : V3 K) (atol : K) (a : Atom K) (r rtol : K) (hr : 0 ≤ r)
+    (hrr : r * r = dist2 s p a) :
+    within s p atol a = true ↔ (r = 0 ∨ |r - 0| ≤ atol + rtol * |(0 : K)|) := by
+  have hw : within s p atol a = true ↔ dist2 s p a = 0 ∨ (0 ≤ atol ∧ dist2 s p a ≤ atol * atol) := by
+    simp only [within, Bool.or_eq_true, Bool.and_eq_true, decide_eq_true_eq, Bool.not_eq_true',
+      decide_eq_false_iff_not, not_lt]
+  rw [hw, ← hrr]
+  simp only [sub_zero, abs_zero, mul_zero, add_zero, abs_of_nonneg hr]
+  constructor
+  · rintro (h | ⟨h0, h1⟩)
+    · left; exact mul_self_eq_zero.mp h
+    · right
+      by_contra hc
+      have hlt : atol < r := not_le.mp hc
+      have : atol * atol < r * r := mul_self_lt_mul_self h0 hlt
+      exact absurd h1 (not_le.mpr this)
+  · rintro (h | h)
+    · left; rw [h, mul_zero]
+    · right; exact ⟨le_trans hr h, mul_self_le_mul_self hr h⟩
+
+end field
+
+
+
+section any
+variable {K : Type} [Add K] [Sub K] [Mul K] [Zero K] [IntCast K] [LT K] [DecidableLT K] [DecidableEq K]
+
+/-! ### keywords: requested values, defaults, unknown keys, order -/
+
+theorem overrideProps_getElem? (keys : List String) (cur : List (List K)) (kw : List (String × List K))
+    (dflt : List K → List K) (j : Nat) (k : String) (v : List K) (hk : keys[j]? = some k) (hv : cur[j]? = some v) :
+    (overrideProps keys cur kw dflt)[j]? = some ((kw.lookup k).getD (dflt v)) := by
+  simp [overrideProps, List.getElem?_zipWith, hk, hv]
+
+/-- `np.zeros_like`: same shape, every entry zero. -/
+theorem zerosLike_spec (v : List K) : (zerosLike v).length = v.length ∧ ∀ x ∈ zerosLike v, x = 0 := by
+  constructor
+  · simp [zerosLike]
+  · intro x hx; simp [zerosLike] at hx; exact hx.2
+
+/-- a keyword that names no property of the system is ignored (what `kwargs.pop(prop, …)` over the
+    system's own properties does). -/
+theorem unknown_keyword_ignored (keys : List String) (cur : List (List K)) (kw : List (String × List K))
+    (dflt : List K → List K) (k : String) (v : List K) (hk : k ∉ keys) :
+    overrideProps keys cur ((k, v) :: kw) dflt = overrideProps keys cur kw dflt := by
+  unfold overrideProps
+  induction keys generalizing cur with
+  | nil => simp
+  | cons key t ih =>
+    cases cur with
+    | nil => simp
+    | cons c ct =>
+      have hne : key ≠ k := fun h => hk (by simp [h])
+      have ht : k ∉ t := fun h => hk (by simp [h])
+      simp only [List.zipWith_cons_cons, ih ct ht]
+      have : (key == k) = false := beq_eq_false_iff_ne.mpr hne
+      simp [List.lookup, this]
+
+theorem lookup_perm (l l' : List (String × List K)) (k : String) (h : l.Perm l')
+    (nd : (l.map Prod.fst).Nodup) : l.lookup k = l'.lookup k := by
+  induction h with
+  | nil => rfl
+  | cons x _ ih =>
+    have nd' : (List.map Prod.fst _).Nodup := (List.nodup_cons.mp (by simpa only [List.map_cons] using nd)).2
+    simp only [List.lookup]
+    split
+    · rfl
+    · exact ih nd'
+  | swap x y l =>
+    have hxy : y.1 ≠ x.1 := by
+      intro h
+      have h0 : (y.1 :: x.1 :: l.map Prod.fst).Nodup := by simpa only [List.map_cons] using nd
+      have := (List.nodup_cons.mp h0).1
+      exact this (by simp [h])
+    simp only [List.lookup]
+    by_cases h1 : k = x.1
+    · by_cases h2 : k = y.1
+      · exact absurd (h2.symm.trans h1) hxy
+      · simp [h1, h2, hxy, Ne.symm hxy]
+        subst h1
+        simp [beq_eq_false_iff_ne.mpr (Ne.symm hxy)]
+    · by_cases h2 : k = y.1
+      · subst h2; simp [beq_eq_false_iff_ne.mpr h1]
+      · simp [beq_eq_false_iff_ne.mpr h1, beq_eq_false_iff_ne.mpr h2]
+  | trans h1 h2 ih1 ih2 =>
+    have nd2 := (h1.map Prod.fst).nodup_iff.mp nd
+    exact (ih1 nd).trans (ih2 nd2)
+
+/-- `**kwargs` is a dictionary: with distinct keys the ORDER in which the keywords are written is irrelevant. -/
+theorem keyword_order_irrelevant (keys : List String) (cur : List (List K)) (kw kw' : List (String × List K))
+    (dflt : List K → List K) (h : kw.Perm kw') (nd : (kw.map Prod.fst).Nodup) :
+    overrideProps keys cur kw dflt = overrideProps keys cur kw' dflt := by
+  unfold overrideProps
+  congr 1
+  funext k v
+  rw [lookup_perm kw kw' k h nd]
+
+end any
+
+
+
+section any
+variable {K : Type} [Add K] [Sub K] [Mul K] [Zero K] [IntCast K] [LT K] [DecidableLT K] [DecidableEq K]
+
+theorem guardAtype_ok_inv (kw : Kw K) (r : Except Err (Sys K)) (s' : Sys K) (h : guardAtype kw r = .ok s') :
+    r = .ok s' ∧ kw.atypeOk = true := by
+  cases r with
+  | error e => simp [guardAtype] at h
+  | ok x =>
+    cases hk : kw.atypeOk <;> simp [guardAtype, hk] at h
+    exact ⟨by rw [h], rfl⟩
+
+/-- the net change in the number of atoms of each kind of insertion. -/
+def Op.delta : Op K → Int
+  | .vac .. => -1
+  | .int .. => 1
+  | .sub .. => 0
+  | .db .. => 1
+
+/-- **exactly the documented change in atom count**, for every accepted insertion. -/
+theorem count_change (s s' : Sys K) (op : Op K) (h : op.apply s = .ok s') :
+    (s'.atoms.length : Int) = (s.atoms.length : Int) + op.delta := by
+  cases op with
+  | vac pos ptd scale atol =>
+    obtain ⟨i, _, _, _, hl, _⟩ := vacancy_spec s s' pos ptd scale atol h
+    simp only [Op.delta]; omega
+  | int pos scale atol kw =>
+    obtain ⟨_, a0, _, _, hl, _⟩ := interstitial_spec s s' pos scale atol kw h
+    simp only [Op.delta]; omega
+  | sub pos ptd scale atol kw =>
+    obtain ⟨i, a, _, _, _, _, hl, _⟩ := substitutional_spec s s' pos ptd scale atol kw h
+    simp only [Op.delta]; omega
+  | db pos ptd dbv scale atol kw =>
+    obtain ⟨i, a, _, _, _, hl, _⟩ := dumbbell_spec s s' pos ptd dbv scale atol kw h
+    simp only [Op.delta]; omega
+
+/-- the accepted insertions of a history (a refused one leaves the system as it was). -/
+def accepted (s : Sys K) : List (Op K) → List (Op K)
+  | [] => []
+  | op :: rest =>
+    match op.apply s with
+    | .error _ => accepted s rest
+    | .ok s' => op :: accepted s' rest
+
+/-- **atom count after ANY history**: the initial count plus the documented change of every accepted insertion. -/
+theorem run_count (ops : List (Op K)) (s : Sys K) (pv : List (Option Nat)) :
+    ((run s pv ops).1.atoms.length : Int) = (s.atoms.length : Int) + ((accepted s ops).map Op.delta).sum := by
+  induction ops generalizing s pv with
+  | nil => simp [run, accepted]
+  | cons op rest ih =>
+    simp only [run, accepted]
+    cases h : op.apply s with
+    | error e => simpa using ih s pv
+    | ok s' =>
+      simp only [List.map_cons, List.sum_cons]
+      rw [ih s' _, count_change s s' op h]
+      omega
+
+/-- the cell and the property keys after ANY history are those of the first system. -/
+theorem run_same_cell (ops : List (Op K)) (s : Sys K) (pv : List (Option Nat)) :
+    (run s pv ops).1.box = s.box ∧ (run s pv ops).1.pbc = s.pbc ∧ (run s pv ops).1.keys = s.keys := by
+  induction ops generalizing s pv with
+  | nil => simp [run]
+  | cons op rest ih =>
+    simp only [run]
+    cases h : op.apply s with
+    | error e => simpa using ih s pv
+    | ok s' =>
+      obtain ⟨h1, h2, h3⟩ := same_cell s s' op h
+      obtain ⟨g1, g2, g3⟩ := ih s' (composeProv pv (op.prov s))
+      exact ⟨g1.trans h1, g2.trans h2, g3.trans h3⟩
+
+/-- **the two spellings of an index give the same RESULT** (not only the same site), for every generator. -/
+theorem index_forms_same_result (s : Sys K) (i : Nat) (hi : i < s.atoms.length) (scale : Bool) (atol : K)
+    (db : V3 K) (kw : Kw K) :
+    vacancy s none (some ((i : Int) - (s.atoms.length : Int))) scale atol = vacancy s none (some (i : Int)) scale atol ∧
+    substitutional s none (some ((i : Int) - (s.atoms.length : Int))) scale atol kw
+      = substitutional s none (some (i : Int)) scale atol kw ∧
+    dumbbell s none (some ((i : Int) - (s.atoms.length : Int))) db scale atol kw
+      = dumbbell s none (some (i : Int)) db scale atol kw := by
+  have h1 := index_normalisation s i hi scale atol
+  have h2 := index_negative s i hi scale atol
+  simp [vacancy, substitutional, dumbbell, h1, h2]
+
+/-! ### the defect atom(s) are last, with the requested position / type / property values -/
+
+/-- **interstitial: the new atom is last**, at the requested position (Cartesian, or converted from box-relative),
+    of the requested type (default 1); a requested property value is stored, an unrequested one is all zeros. -/
+theorem interstitial_last (s s' : Sys K) (pos : V3 K) (scale : Bool) (atol : K) (kw : Kw K)
+    (h : interstitial s pos scale atol kw = .ok s') :
+    ∃ a, s'.atoms.getLast? = some a ∧ a.pos = toCart s scale pos ∧ a.atype = kw.atype.getD 1 ∧
+      ∀ (j : Nat) k a0 v0, s.keys[j]? = some k → s.atoms[0]? = some a0 → a0.props[j]? = some v0 →
+        a.props[j]? = some ((kw.extra.lookup k).getD (zerosLike v0)) := by
+  obtain ⟨_, a0, ha0, hat, _, _⟩ := interstitial_spec s s' pos scale atol kw h
+  refine ⟨{ atype := kw.atype.getD 1, pos := toCart s scale pos,
+            props := overrideProps s.keys a0.props kw.extra zerosLike }, by rw [hat]; simp, rfl, rfl, ?_⟩
+  intro j k a0' v0 hk ha0' hv
+  rw [ha0] at ha0'; injection ha0' with ha0'; subst ha0'
+  exact overrideProps_getElem? s.keys a0.props kw.extra zerosLike j k v0 hk hv
+
+/-- **substitutional: the substituted atom is last**, where it was, with the requested type; a requested property
+    value is stored, an unrequested one is unchanged. -/
+theorem substitutional_last (s s' : Sys K) (pos : Option (V3 K)) (ptd : Option Int) (scale : Bool) (atol : K)
+    (kw : Kw K) (h : substitutional s pos ptd scale atol kw = .ok s') :
+    ∃ i a b, resolveSite s pos ptd scale atol = .ok i ∧ s.atoms[i]? = some a ∧ s'.atoms.getLast? = some b ∧
+      b.pos = a.pos ∧ b.atype = kw.atype.getD 1 ∧
+      ∀ (j : Nat) k v0, s.keys[j]? = some k → a.props[j]? = some v0 →
+        b.props[j]? = some ((kw.extra.lookup k).getD v0) := by
+  obtain ⟨i, a, hr, ha, _, hat, _, _⟩ := substitutional_spec s s' pos ptd scale atol kw h
+  refine ⟨i, a, { a with atype := kw.atype.getD 1, props := overrideProps s.keys a.props kw.extra id }, hr, ha,
+    by rw [hat]; simp, rfl, rfl, ?_⟩
+  intro j k v0 hk hv
+  exact overrideProps_getElem? s.keys a.props kw.extra id j k v0 hk hv
+
+/-- **dumbbell: the two dumbbell atoms are last**: the site atom moved by `-db_vect` (otherwise unchanged) and the
+    new atom at `+db_vect` with the requested type / property values (default: those of the site atom). -/
+theorem dumbbell_last (s s' : Sys K) (pos : Option (V3 K)) (ptd : Option Int) (db : V3 K) (scale : Bool) (atol : K)
+    (kw : Kw K) (h : dumbbell s pos ptd db scale atol kw = .ok s') :
+    ∃ i a b c, resolveSite s pos ptd scale atol = .ok i ∧ s.atoms[i]? = some a ∧
+      s'.atoms[s.atoms.length - 1]? = some b ∧ s'.atoms[s.atoms.length]? = some c ∧ s'.atoms.getLast? = some c ∧
+      b = { a with pos := a.pos - dbCart s scale db } ∧
+      c.pos = a.pos + dbCart s scale db ∧ c.atype = kw.atype.getD a.atype ∧
+      ∀ (j : Nat) k v0, s.keys[j]? = some k → a.props[j]? = some v0 →
+        c.props[j]? = some ((kw.extra.lookup k).getD v0) := by
+  obtain ⟨i, a, hr, ha, hat, _, _⟩ := dumbbell_spec s s' pos ptd db scale atol kw h
+  have hi : i < s.atoms.length := (List.getElem?_eq_some_iff.mp ha).1
+  have hl : (s.atoms.eraseIdx i).length = s.atoms.length - 1 := by simp [List.length_eraseIdx, hi]
+  refine ⟨i, a, { a with pos := a.pos - dbCart s scale db },
+    { atype := kw.atype.getD a.atype, pos := a.pos + dbCart s scale db,
+      props := overrideProps s.keys a.props kw.extra id }, hr, ha, ?_, ?_, by rw [hat]; simp, rfl, rfl, rfl, ?_⟩
+  · rw [hat, List.getElem?_append_right (by omega)]; simp [hl]
+  · rw [hat, List.getElem?_append_right (by omega)]
+    have : s.atoms.length - (s.atoms.eraseIdx i).length = 1 := by omega
+    simp [this]
+  · intro j k v0 hk hv
+    exact overrideProps_getElem? s.keys a.props kw.extra id j k v0 hk hv
+
+/-- **an interstitial followed by the vacancy of the last atom gives back the atoms of the input**, in order. -/
+theorem interstitial_vacancy_roundtrip (s s1 s2 : Sys K) (pos : V3 K) (scale : Bool) (atol atol' : K) (kw : Kw K)
+    (h1 : interstitial s pos scale atol kw = .ok s1)
+    (h2 : vacancy s1 none (some (-1)) false atol' = .ok s2) : s2.atoms = s.atoms := by
+  obtain ⟨_, a0, _, hat, hl, _⟩ := interstitial_spec s s1 pos scale atol kw h1
+  obtain ⟨i, hr, _, hat2, _⟩ := vacancy_spec s1 s2 none (some (-1)) false atol' h2
+  have hn : s1.atoms.length = s.atoms.length + 1 := hl
+  have := index_negative s1 s.atoms.length (by omega) false atol'
+  have hcast : ((s.atoms.length : Int) - (s1.atoms.length : Int)) = -1 := by omega
+  rw [hcast, hr] at this
+  injection this with this
+  subst this
+  rw [hat2, hat, List.eraseIdx_append_of_length_le (le_refl _)]
+  simp
+
+end any
+
+
+
+section any
+variable {K : Type} [Add K] [Sub K] [Mul K] [Zero K] [IntCast K] [LT K] [DecidableLT K] [DecidableEq K]
+
+/-! ### end to end: the functions AS WRITTEN in point.py (regenerated `PointSource.*`) -/
+
+/-- an accepted call of `vacancy` as written is the model insertion `.vac` with the resolved tolerance. -/
+theorem source_vacancy_is_op (d : K) (s s' : Sys K) (pos : Option (V3 K)) (ptd : Option Int) (scale : Bool)
+    (atol : Option K) (h : PointSource.vacancy d s pos ptd scale atol = .ok s') :
+    (Op.vac pos ptd scale (effAtol d atol)).apply s = .ok s' := by
+  rw [gen_vacancy_eq_model] at h; exact h
+
+theorem source_interstitial_is_op (d : K) (s s' : Sys K) (pos : V3 K) (scale : Bool) (atol : Option K) (kw : Kw K)
+    (h : PointSource.interstitial d s pos scale atol kw = .ok s') :
+    (Op.int pos scale (effAtol d atol) kw).apply s = .ok s' ∧ kw.atypeOk = true := by
+  rw [gen_interstitial_eq_model] at h; exact guardAtype_ok_inv kw _ s' h
+
+/-- `atype` is a named parameter of `substitutional` (default 1), every other keyword arrives in `**kwargs`. -/
+theorem source_substitutional_is_op (d : K) (s s' : Sys K) (pos : Option (V3 K)) (ptd : Option Int) (scale : Bool)
+    (atol : Option K) (kw : Kw K)
+    (h : PointSource.substitutional d s pos ptd (kw.atype.getD 1) scale atol { kw with atype := none } = .ok s') :
+    (Op.sub pos ptd scale (effAtol d atol) kw).apply s = .ok s' ∧ kw.atypeOk = true := by
+  rw [gen_substitutional_eq_model] at h; exact guardAtype_ok_inv kw _ s' h
+
+theorem source_dumbbell_is_op (d : K) (s s' : Sys K) (hv : ValidTypes s) (pos : Option (V3 K)) (ptd : Option Int)
+    (db : V3 K) (scale : Bool) (atol : Option K) (kw : Kw K)
+    (h : PointSource.dumbbell d s pos ptd db scale atol kw = .ok s') :
+    (Op.db pos ptd db scale (effAtol d atol) kw).apply s = .ok s' ∧ kw.atypeOk = true := by
+  rw [gen_dumbbell_eq_model d s hv] at h; exact guardAtype_ok_inv kw _ s' h
+
+/-- **every accepted call of the dispatcher as written is one of the four model insertions**, with the tolerance
+    resolved (`None` ↦ default) and every keyword handed on. -/
+theorem source_point_is_op (d : K) (s s' : Sys K) (hv : ValidTypes s) (t : String) (pos : Option (V3 K))
+    (ptd : Option Int) (db : Option (V3 K)) (scale : Bool) (atol : Option K) (kw : Kw K)
+    (h : PointSource.point d s t pos ptd db scale atol kw = .ok s') :
+    ∃ op : Op K, op.apply s = .ok s' ∧ kw.atypeOk = true ∧
+      ((t = "v" ∧ op = .vac pos ptd scale (effAtol d atol) ∧ db = none ∧ kw.isEmpty = true) ∨
+       (t = "i" ∧ ∃ p, pos = some p ∧ op = .int p scale (effAtol d atol) kw ∧ ptd = none ∧ db = none) ∨
+       (t = "s" ∧ op = .sub pos ptd scale (effAtol d atol) kw ∧ db = none) ∨
+       (t = "db" ∧ ∃ v, db = some v ∧ op = .db pos ptd v scale (effAtol d atol) kw)) := by
+  rw [gen_point_eq_model d s hv] at h
+  unfold pointC at h
+  by_cases h1 : t = "v"
+  · subst h1
+    simp only [if_true] at h
+    cases db with
+    | some v => simp at h
+    | none =>
+      cases hk : kw.isEmpty with
+      | false => simp [hk] at h
+      | true =>
+        simp [hk] at h
+        have hok : kw.atypeOk = true := by
+          cases kw with
+          | mk a o e => cases a <;> simp_all [Kw.isEmpty, Kw.atypeOk]
+        exact ⟨.vac pos ptd scale (effAtol d atol), h, hok, Or.inl ⟨rfl, rfl, rfl, rfl⟩⟩
+  · by_cases h2 : t = "i"
+    · subst h2
+      simp only [h1, if_false, if_true] at h
+      cases ptd with
+      | some k => simp at h
+      | none =>
+        cases db with
+        | some v => simp at h
+        | none =>
+          cases pos with
+          | none => simp at h
+          | some p =>
+            simp at h
+            obtain ⟨g1, g2⟩ := guardAtype_ok_inv kw _ s' h
+            exact ⟨.int p scale (effAtol d atol) kw, g1, g2, Or.inr (Or.inl ⟨rfl, p, rfl, rfl, rfl, rfl⟩)⟩
+    · by_cases h3 : t = "s"
+      · subst h3
+        simp only [h1, h2, if_false, if_true] at h
+        cases db with
+        | some v => simp at h
+        | none =>
+          simp at h
+          obtain ⟨g1, g2⟩ := guardAtype_ok_inv kw _ s' h
+          exact ⟨.sub pos ptd scale (effAtol d atol) kw, g1, g2, Or.inr (Or.inr (Or.inl ⟨rfl, rfl, rfl⟩))⟩
+      · by_cases h4 : t = "db"
+        · subst h4
+          simp only [h1, h2, h3, if_false, if_true] at h
+          cases db with
+          | none => simp at h
+          | some v =>
+            simp at h
+            obtain ⟨g1, g2⟩ := guardAtype_ok_inv kw _ s' h
+            exact ⟨.db pos ptd v scale (effAtol d atol) kw, g1, g2, Or.inr (Or.inr (Or.inr ⟨rfl, v, rfl, rfl⟩))⟩
+        · simp [h1, h2, h3, h4] at h
+
+end any
+
+
+
+section any
+variable {K : Type} [Add K] [Sub K] [Mul K] [Zero K] [IntCast K] [LT K] [DecidableLT K] [DecidableEq K]
+
+/-- refusal, end to end: `vacancy` AS WRITTEN accepts exactly when the site resolves (with `None` ↦ default
+    tolerance) and the atom is not the only one. -/
+theorem source_vacancy_ok_iff (d : K) (s : Sys K) (pos : Option (V3 K)) (ptd : Option Int) (scale : Bool)
+    (atol : Option K) :
+    (∃ s', PointSource.vacancy d s pos ptd scale atol = .ok s') ↔
+      (∃ i, resolveSite s pos ptd scale (effAtol d atol) = .ok i) ∧ 2 ≤ s.atoms.length := by
+  rw [gen_vacancy_eq_model]; exact vacancy_ok_iff s pos ptd scale (effAtol d atol)
+
+/-- `interstitial` AS WRITTEN accepts exactly when no atom is within the tolerance and the requested type is ≥ 1. -/
+theorem source_interstitial_ok_iff (d : K) (s : Sys K) (hne : s.atoms ≠ []) (p : V3 K) (scale : Bool)
+    (atol : Option K) (kw : Kw K) :
+    (∃ s', PointSource.interstitial d s p scale atol kw = .ok s') ↔
+      (∀ (j : Nat) b, s.atoms[j]? = some b → within s (toCart s scale p) (effAtol d atol) b = false) ∧
+      kw.atypeOk = true := by
+  rw [gen_interstitial_eq_model]
+  unfold interstitialC
+  rw [← interstitial_ok_iff_free s p scale (effAtol d atol) kw hne]
+  constructor
+  · rintro ⟨s', h⟩
+    obtain ⟨h1, h2⟩ := (guardAtype_ok_iff kw _ s').mp h
+    exact ⟨⟨s', h1⟩, h2⟩
+  · rintro ⟨⟨s', h1⟩, h2⟩
+    exact ⟨s', (guardAtype_ok_iff kw _ s').mpr ⟨h1, h2⟩⟩
+
+/-- `substitutional` AS WRITTEN accepts exactly when the site resolves, the atom has another type and the
+    requested type is ≥ 1. -/
+theorem source_substitutional_ok_iff (d : K) (s : Sys K) (pos : Option (V3 K)) (ptd : Option Int) (scale : Bool)
+    (atol : Option K) (kw : Kw K) :
+    (∃ s', PointSource.substitutional d s pos ptd (kw.atype.getD 1) scale atol { kw with atype := none } = .ok s') ↔
+      (∃ i a, resolveSite s pos ptd scale (effAtol d atol) = .ok i ∧ s.atoms[i]? = some a ∧
+        a.atype ≠ kw.atype.getD 1) ∧ kw.atypeOk = true := by
+  rw [gen_substitutional_eq_model]
+  unfold substitutionalC
+  rw [← substitutional_ok_iff s pos ptd scale (effAtol d atol) kw]
+  constructor
+  · rintro ⟨s', h⟩
+    obtain ⟨h1, h2⟩ := (guardAtype_ok_iff kw _ s').mp h
+    exact ⟨⟨s', h1⟩, h2⟩
+  · rintro ⟨⟨s', h1⟩, h2⟩
+    exact ⟨s', (guardAtype_ok_iff kw _ s').mpr ⟨h1, h2⟩⟩
+
+/-- `dumbbell` AS WRITTEN accepts exactly when the site resolves and the requested type is ≥ 1. -/
+theorem source_dumbbell_ok_iff (d : K) (s : Sys K) (hv : ValidTypes s) (pos : Option (V3 K)) (ptd : Option Int)
+    (db : V3 K) (scale : Bool) (atol : Option K) (kw : Kw K) :
+    (∃ s', PointSource.dumbbell d s pos ptd db scale atol kw = .ok s') ↔
+      (∃ i, resolveSite s pos ptd scale (effAtol d atol) = .ok i) ∧ kw.atypeOk = true := by
+  rw [gen_dumbbell_eq_model d s hv]
+  unfold dumbbellC
+  rw [← dumbbell_ok_iff s pos ptd db scale (effAtol d atol) kw]
+  constructor
+  · rintro ⟨s', h⟩
+    obtain ⟨h1, h2⟩ := (guardAtype_ok_iff kw _ s').mp h
+    exact ⟨⟨s', h1⟩, h2⟩
+  · rintro ⟨⟨s', h1⟩, h2⟩
+    exact ⟨s', (guardAtype_ok_iff kw _ s').mpr ⟨h1, h2⟩⟩
+
+/-- every clause of the property about ONE accepted insertion, collected. -/
+theorem op_clauses (s s' : Sys K) (op : Op K) (hwf : WF s) (h : op.apply s = .ok s') :
+    s'.box = s.box ∧ s'.pbc = s.pbc ∧ s'.keys = s.keys ∧
+    (s'.atoms.length : Int) = (s.atoms.length : Int) + op.delta ∧
+    WF s' ∧ s'.old.isSome ∧ (op.prov s).length = s'.atoms.length ∧
+    (∀ j k, (op.prov s)[j]? = some (some k) → k < s.atoms.length ∧ oldAt s' j = oldAt s k) ∧
+    s.nsym ≤ s'.nsym ∧ (∀ i, i < s.masses.length → s'.masses[i]? = s.masses[i]?) := by
+  obtain ⟨h1, h2, h3⟩ := same_cell s s' op h
+  obtain ⟨g1, g2, g3, g4⟩ := old_id_correct s s' op hwf h
+  obtain ⟨m1, _, _, m4⟩ := symbols_masses_kept s s' op h
+  exact ⟨h1, h2, h3, count_change s s' op h, g1, g2, g3, g4, m1, m4⟩
+
+/-- **END TO END.**  For every call `point(system, ptd_type, pos, ptd_id, db_vect, scale, atol, **kwargs)` of the
+    dispatcher AS WRITTEN in point.py that returns a system: same cell and property keys, the documented change
+    in atom count, an `old_id` entry for every atom, the input's old index recorded for every surviving atom,
+    symbols and masses kept. -/
+theorem source_point_clauses (d : K) (s s' : Sys K) (hv : ValidTypes s) (hwf : WF s) (t : String)
+    (pos : Option (V3 K)) (ptd : Option Int) (db : Option (V3 K)) (scale : Bool) (atol : Option K) (kw : Kw K)
+    (h : PointSource.point d s t pos ptd db scale atol kw = .ok s') :
+    ∃ op : Op K, op.apply s = .ok s' ∧
+      s'.box = s.box ∧ s'.pbc = s.pbc ∧ s'.keys = s.keys ∧
+      (s'.atoms.length : Int) = (s.atoms.length : Int) + op.delta ∧
+      (t = "v" → op.delta = -1) ∧ (t = "i" → op.delta = 1) ∧ (t = "s" → op.delta = 0) ∧ (t = "db" → op.delta = 1) ∧
+      WF s' ∧ s'.old.isSome ∧
+      (∀ j k, (op.prov s)[j]? = some (some k) → k < s.atoms.length ∧ oldAt s' j = oldAt s k) ∧
+      s.nsym ≤ s'.nsym ∧ (∀ i, i < s.masses.length → s'.masses[i]? = s.masses[i]?) := by
+  obtain ⟨op, hop, _, hkind⟩ := source_point_is_op d s s' hv t pos ptd db scale atol kw h
+  obtain ⟨c1, c2, c3, c4, c5, c6, _, c8, c9, c10⟩ := op_clauses s s' op hwf hop
+  refine ⟨op, hop, c1, c2, c3, c4, ?_, ?_, ?_, ?_, c5, c6, c8, c9, c10⟩
+  all_goals
+    intro ht
+    rcases hkind with ⟨h0, ho, _⟩ | ⟨h0, p, _, ho, _⟩ | ⟨h0, ho, _⟩ | ⟨h0, v, _, ho⟩ <;>
+      first
+      | (subst ho; rfl)
+      | (rw [h0] at ht; exact absurd ht (by decide))
+
+end any
+
+
+/-! ### non-vacuity of the new theorems -/
+example : ValidTypes exSys := by
+  intro a ha
+  simp [exSys] at ha
+  rcases ha with rfl | rfl <;> decide
+example : WF exSys := by simp [WF, exSys]
+-- an accepted call of the dispatcher as written (hypothesis of `source_point_clauses` / `source_point_is_op`)
+example : (PointSource.point (1/100) exSys "db" none (some 0) (some ⟨1/8, 0, 0⟩) true none {}).isOk = true := by
+  decide +kernel
+example : (PointSource.point (1/100) exSys "v" (some ⟨-3, 0, 0⟩) none none false none {}).isOk = true := by
+  decide +kernel
+example : (PointSource.point (1/100) exSys "i" (some ⟨1/4, 1/2, 1/2⟩) none none true (some 0) { atype := some 3 }).isOk = true := by
+  decide +kernel
+example : (PointSource.point (1/100) exSys "s" none (some (-1)) none false none { atype := some 1 }).isOk = true := by
+  decide +kernel
+-- the generated functions agree with the model on concrete refusals too
+example : PointSource.point (1/100) exSys "v" none (some 0) (some ⟨1/8, 0, 0⟩) false none {} = .error .assert := by
+  decide +kernel
+example : PointSource.vacancy (1/100) exSys (some ⟨1 + 1/128, 0, 0⟩) none false (some (1/256)) = .error .value := by
+  decide +kernel
+-- `within_iff_isclose`: the exact distance of the position 1/128 off atom 0 is r = 1/128
+example : (1/128 : Rat) * (1/128) = dist2 exSys ⟨1 + 1/128, 0, 0⟩ { atype := 1, pos := ⟨1, 0, 0⟩, props := [[1/2]] } := by
+  decide +kernel
+-- `interstitial_vacancy_roundtrip`: both steps are accepted on `exSys`
+example : ((interstitial exSys ⟨1/4, 1/2, 1/2⟩ true (1/100) {}).toOption.bind
+    fun s1 => (vacancy s1 none (some (-1)) false (1/100)).toOption).map (·.atoms) = some exSys.atoms := by decide +kernel
+-- `keyword_order_irrelevant` / `unknown_keyword_ignored`
+example : overrideProps ["charge", "tag"] [[(1 : Rat)], [2]] [("tag", [7]), ("charge", [9])] id
+    = overrideProps ["charge", "tag"] [[(1 : Rat)], [2]] [("charge", [9]), ("tag", [7])] id := by decide +kernel
+example : overrideProps ["charge"] [[(1 : Rat)]] [("nosuch", [7]), ("charge", [9])] id = [[9]] := by decide +kernel
+-- `run_count`: vacancy (-1), interstitial (+1), a refused step, dumbbell (+1) on a 2-atom system: 3 atoms
+example : (run exSys (idProv exSys) [.vac none (some 0) false (1/100), .int ⟨1/4, 1/4, 1/4⟩ true (1/100) {},
+    .vac none (some 7) false (1/100), .db none (some 0) ⟨1/8, 0, 0⟩ false (1/100) {}]).1.atoms.length = 3 := by decide +kernel
+
+
+
+/-! ### the per-property loop, index objects that are not integers -/
+
+section any
+variable {K : Type} [Add K] [Sub K] [Mul K] [Zero K] [IntCast K] [LT K] [DecidableLT K] [DecidableEq K]
+
+theorem setLast_setLast {α : Type} (l : List α) (f g : α → α) :
+    setLast (setLast l f) g = setLast l (fun a => g (f a)) := by
+  rcases List.eq_nil_or_concat l with rfl | ⟨L, b, rfl⟩
+  · simp [setLast]
+  · simp [setLast_append_single]
+
+/-- **the iterations of the per-property loop commute**: each branch reads and writes only its own property of the
+    last atom (`atype`, `pos`, `old_id`, the extra properties), so the order in which `atoms_prop()` lists the
+    properties does not matter — whatever the functions assigned. -/
+theorem loop_branches_commute (d : Sys K) (fa : Int → Int) (fp : V3 K → V3 K) (fo : List Int → Int → Int)
+    (kw : Kw K) (dflt : List K → List K) :
+    setLastAtype (setLastPos d fp) fa = setLastPos (setLastAtype d fa) fp ∧
+    setLastAtype (setLastOld d fo) fa = setLastOld (setLastAtype d fa) fo ∧
+    setLastAtype (setLastExtras d kw dflt) fa = setLastExtras (setLastAtype d fa) kw dflt ∧
+    setLastPos (setLastOld d fo) fp = setLastOld (setLastPos d fp) fo ∧
+    setLastPos (setLastExtras d kw dflt) fp = setLastExtras (setLastPos d fp) kw dflt ∧
+    setLastOld (setLastExtras d kw dflt) fo = setLastExtras (setLastOld d fo) kw dflt := by
+  refine ⟨?_, ?_, ?_, ?_, ?_, ?_⟩ <;>
+    simp [setLastAtype, setLastPos, setLastOld, setLastExtras, setLast_setLast]
+
+end any
+
+section field
+variable {K : Type} [Field K] [LinearOrder K] [IsStrictOrderedRing K]
+
+/-- in range (`-natoms ≤ q < natoms`) the object reaches its first use as an index and fails there;
+    out of range it is the ordinary 'invalid ptd_id'. -/
+theorem float_index_class (n : Nat) (q : K) (after : Refusal) :
+    floatIndex n q after = if -((n : Int) : K) ≤ q ∧ q < ((n : Int) : K) then after else .value := by
+  unfold floatIndex
+  have hn : (0 : K) ≤ ((n : Int) : K) := by exact_mod_cast Int.natCast_nonneg n
+  generalize ((n : Int) : K) = N at hn ⊢
+  by_cases hq : q < 0
+  · simp only [hq, if_true]
+    by_cases h1 : q + N < 0
+    · have : ¬ (-N ≤ q) := by intro h; linarith
+      simp [h1, this]
+    · have h2 : q + N < N := by linarith
+      have : -N ≤ q := by linarith
+      have h3 : q < N := by linarith
+      simp [h1, h2, this, h3]
+  · simp only [hq, if_false]
+    have : -N ≤ q := by linarith [not_lt.mp hq]
+    by_cases h2 : q < N
+    · simp [hq, h2, this]
+    · simp [hq, h2]
+
+/-- a whole-number float is refused with 'invalid ptd_id' exactly when the integer of the same value is. -/
+theorem float_index_range_agrees (s : Sys K) (k : Int) (scale : Bool) (atol : K) (after : Refusal)
+    (ha : after ≠ .value) :
+    floatIndex s.atoms.length ((k : Int) : K) after = .value ↔
+      resolveSite s none (some k) scale atol = .error .value := by
+  rw [float_index_class]
+  have hr : resolveSite s none (some k) scale atol = .error .value ↔
+      (k ≥ (s.atoms.length : Int) ∨ k < -(s.atoms.length : Int)) := by
+    constructor
+    · intro h
+      by_contra hc
+      have h1 : ¬ (k ≥ (s.atoms.length : Int)) := fun h' => hc (Or.inl h')
+      have h2 : ¬ (k < -(s.atoms.length : Int)) := fun h' => hc (Or.inr h')
+      have : normIdx s.atoms.length k ≠ none := by
+        unfold normIdx; simp only []; split <;> (split <;> first | omega | simp)
+      simp only [resolveSite] at h
+      cases hn : normIdx s.atoms.length k with
+      | none => exact this hn
+      | some j => rw [hn] at h; cases h
+    · intro h; simp [resolveSite, normIdx_out _ _ h]
+  rw [hr]
+  have c1 : (-(((s.atoms.length : Nat) : Int) : K) ≤ ((k : Int) : K)) ↔ -((s.atoms.length : Nat) : Int) ≤ k := by
+    rw [← Int.cast_neg]; exact Int.cast_le
+  have c2 : (((k : Int) : K) < (((s.atoms.length : Nat) : Int) : K)) ↔ k < ((s.atoms.length : Nat) : Int) := Int.cast_lt
+  by_cases hin : -((s.atoms.length : Nat) : Int) ≤ k ∧ k < ((s.atoms.length : Nat) : Int)
+  · have : (-(((s.atoms.length : Nat) : Int) : K) ≤ ((k : Int) : K)) ∧ (((k : Int) : K) < (((s.atoms.length : Nat) : Int) : K)) :=
+      ⟨c1.mpr hin.1, c2.mpr hin.2⟩
+    simp only [this, and_self, if_true]
+    constructor
+    · intro h; exact absurd h ha
+    · intro h; omega
+  · have : ¬ ((-(((s.atoms.length : Nat) : Int) : K) ≤ ((k : Int) : K)) ∧ (((k : Int) : K) < (((s.atoms.length : Nat) : Int) : K))) := by
+      intro h; exact hin ⟨c1.mp h.1, c2.mp h.2⟩
+    simp only [this, if_false, true_iff]
+    omega
+
+/-- **an index that is not of integer type is never accepted and never truncated**: the three generators
+    answer with a refusal class that depends only on the range of its value. -/
+theorem float_index_refused (s : Sys K) (q : K) (hq : -((s.atoms.length : Int) : K) ≤ q ∧ q < ((s.atoms.length : Int) : K)) :
+    vacancyF s none q = .type ∧ substitutionalF s none q = .index ∧ dumbbellF s none q = .type ∧
+    (∀ p, vacancyF s (some p) q = .value ∧ substitutionalF s (some p) q = .value ∧ dumbbellF s (some p) q = .value) := by
+  have h := fun a => float_index_class (K := K) s.atoms.length q a
+  simp only [hq, and_self, if_true] at h
+  refine ⟨?_, ?_, ?_, ?_⟩
+  · simp only [vacancyF]; exact h _
+  · simp only [substitutionalF]; exact h _
+  · simp only [dumbbellF]; exact h _
+  · intro p; simp [vacancyF, substitutionalF, dumbbellF]
+
+end field
+
+-- float index objects on `exSys` (2 atoms): whole numbers and fractions in range fail at their first use,
+-- out of range is 'invalid ptd_id', with `pos` too it is the both-given refusal
+example : vacancyF exSys none (1 : Rat) = .type ∧ substitutionalF exSys none (-1/2 : Rat) = .index ∧
+    dumbbellF exSys none (-2 : Rat) = .type ∧ vacancyF exSys none (2 : Rat) = .value ∧
+    dumbbellF exSys none (-9/4 : Rat) = .value ∧ substitutionalF exSys (some ⟨1, 0, 0⟩) (0 : Rat) = .value ∧
+    pointF exSys "v" none (3/2 : Rat) false true = .type ∧ pointF exSys "i" none (0 : Rat) false true = .assert := by
   decide +kernel
 
 end Atomman.C15
